@@ -267,6 +267,80 @@ impl Check for ModelEdits {
     }
 }
 
+/// Server level: the diagnostics published after a didChange equal those published after a
+/// didOpen of the same text (positions computed by the client model). Histories on which the
+/// library-level analysis itself diverges are left to the parts above.
+pub struct Published;
+
+impl Check for Published {
+    fn part(&self) -> &'static str {
+        "published-diagnostics-after-didchange"
+    }
+    fn max_len(&self) -> usize {
+        2500
+    }
+    fn run(&self, bytes: &[u8]) -> CaseResult {
+        use crate::srv::{self, Srv};
+        use splgen::lsp as cl;
+        let case = decode(bytes);
+        let mut r = CaseResult::new(fnv(format!("{:?}{:?}", case.initial, case.history).as_bytes()) ^ 0xd1a6);
+        r.label(format!("stratum:{}", case.stratum));
+        if run_history(&case, |_| {}).is_err() {
+            r.excluded.push("library-level-divergence(reported by the other parts)".into());
+            return r;
+        }
+        let u = srv::default_uri();
+        let mut live = Srv::new(true);
+        live.open(&u, &case.initial);
+        let mut text = case.initial.clone();
+        r.evals = 0;
+        for (k, batch) in case.history.iter().enumerate() {
+            let mut t2 = text.clone();
+            let mut changes = Vec::new();
+            let mut ok = true;
+            for e in batch {
+                if !cl::expressible(&t2, e.range.start) || !cl::expressible(&t2, e.range.end) {
+                    ok = false;
+                    break;
+                }
+                changes.push(srv::change_event(Some((cl::pos_of(&t2, e.range.start), cl::pos_of(&t2, e.range.end))), &e.text));
+                t2.replace_range(e.range.clone(), &e.text);
+            }
+            if !ok {
+                r.excluded.push("edit-not-expressible-as-position".into());
+                break;
+            }
+            live.change(&u, changes);
+            text = t2;
+            if let Err(sig) = live.settle() {
+                r.fail(sig, "the document broker dies", describe_case(&case));
+                return r;
+            }
+            let got = live.diagnostics().into_iter().filter(|p| p.uri == u).last();
+            let mut fresh = Srv::new(true);
+            fresh.open(&u, &text);
+            let _ = fresh.settle();
+            let want = fresh.diagnostics().into_iter().filter(|p| p.uri == u).last();
+            r.evals += 1;
+            let strip = |p: &Option<lsp_types::PublishDiagnosticsParams>| p.as_ref().map(|p| p.diagnostics.iter().map(|d| (d.range, d.message.clone(), d.severity)).collect::<Vec<_>>());
+            if strip(&got) != strip(&want) {
+                r.fail(
+                    "published-diagnostics-differ",
+                    format!("after notification {} the published diagnostics differ from those of a fresh didOpen of the same text: {:?} vs {:?}", k + 1, strip(&got), strip(&want)),
+                    describe_case(&case),
+                );
+                return r;
+            }
+        }
+        r.evals = r.evals.max(1);
+        r.nontrivial = case.history.len() >= 2 && case.stratum != "empty";
+        r
+    }
+    fn describe(&self, bytes: &[u8]) -> Value {
+        describe_case(&decode(bytes))
+    }
+}
+
 /// Explicit histories (regression corpus): the bytes are the UTF-8 JSON text
 /// `{"initial": "...", "history": [[{"range":[a,b],"insert":"..."}]]}`.
 pub struct ExplicitHistory;
@@ -369,7 +443,7 @@ fn minimise_history(case: &Case) -> Option<Vec<u8>> {
 }
 
 pub fn checks() -> Vec<Box<dyn Check>> {
-    vec![Box::new(Histories), Box::new(ModelEdits), Box::new(ExplicitHistory)]
+    vec![Box::new(Histories), Box::new(ModelEdits), Box::new(ExplicitHistory), Box::new(Published)]
 }
 
 pub fn run(ctx: &Ctx) -> i32 {
@@ -377,6 +451,7 @@ pub fn run(ctx: &Ctx) -> i32 {
         crate::corpus_part(ctx, &checks()),
         run_pbt(ctx, &Histories, ctx.n(24_000, 400_000)),
         run_pbt(ctx, &ModelEdits, ctx.n(16_000, 300_000)),
+        run_pbt(ctx, &Published, ctx.n(5_000, 80_000)),
     ];
     if ctx.thorough() {
         parts.push(fuzz_part(ctx, "c01_histories", &Histories, 250_000, 2500));
